@@ -277,10 +277,13 @@ def area_3d_vecs(vs):
     n = len(vs)
     c = _norm((sum(v[0] for v in vs), sum(v[1] for v in vs), sum(v[2] for v in vs)))
     total = 0.0
+    # det[c, a, b] = det[c, a - c, b - c]: taking the determinant on differences from the centroid keeps
+    # full relative precision for polygons that are tiny compared with the sphere
+    ds = [(v[0] - c[0], v[1] - c[1], v[2] - c[2]) for v in vs]
     for i in range(n):
         a = vs[i]
         b = vs[(i + 1) % n]
-        num = _dot(c, _cross(a, b))
+        num = _dot(c, _cross(ds[i], ds[(i + 1) % n]))
         den = 1 + _dot(c, a) + _dot(a, b) + _dot(b, c)
         total += 2 * math.atan2(num, den)
     return total
